@@ -99,3 +99,29 @@ Theorem c16_subscripts :
   forms_of "RetryingClient"%string subscript_forms = expected_forms "RetryingClient"%string.
 Proof. repeat split; reflexivity. Qed.
 Print Assumptions c16_subscripts.
+
+(* "configured identically" includes the options nobody mentions: an option that Client and a wrapper both accept has the same
+   constructor default in both (signatures read from base.py / hash.py of this run: Gen/Wrappers.v, ctor_defaults) *)
+Definition ctor_of (cls : string) : list (string * string) :=
+  match find (fun r => String.eqb (fst r) cls) ctor_defaults with Some r => snd r | None => [] end.
+Definition default_of (cls opt : string) : option string :=
+  option_map snd (find (fun p => String.eqb (fst p) opt) (ctor_of cls)).
+Definition same_defaults (wrapper : string) : bool :=
+  forallb (fun p => match default_of wrapper (fst p) with
+                    | Some d => String.eqb d (snd p)
+                    | None => true end) (ctor_of "Client"%string).
+Theorem c16_same_defaults :
+  (forall w opt d dc, In w ["PooledClient"; "HashClient"]%string ->
+     default_of w opt = Some d -> default_of "Client"%string opt = Some dc -> In (opt, dc) (ctor_of "Client"%string) -> d = dc) /\
+  (forall w opt, In w ["PooledClient"; "HashClient"]%string -> In opt shared_options -> default_of w opt <> None /\ default_of "Client"%string opt <> None).
+Proof.
+  split.
+  - intros w opt d dc Hw Hd Hc Hin.
+    assert (H : same_defaults w = true) by (destruct Hw as [<-|[<-|[]]]; vm_compute; reflexivity).
+    unfold same_defaults in H. rewrite forallb_forall in H. specialize (H _ Hin). cbn [fst snd] in H.
+    rewrite Hd in H. apply String.eqb_eq in H. exact H.
+  - intros w opt Hw Ho.
+    destruct Hw as [<-|[<-|[]]];
+      repeat (destruct Ho as [<-|Ho]; [split; vm_compute; discriminate|]); destruct Ho.
+Qed.
+Print Assumptions c16_same_defaults.
